@@ -481,6 +481,22 @@ class Report:
         return r
 
 
+def reuse_rule(rep, rule_fn, new_rule, *args, keep=None, **kw):
+    """run another property's rule function in a scratch report and adopt its obligations under `new_rule`"""
+    sub = rep.sub()
+    rule_fn(*args[:1], sub, *args[1:], **kw)
+    n = 0
+    for it in sub.items:
+        if keep is not None and not keep(it):
+            continue
+        it = dict(it)
+        it["rule"] = new_rule
+        rep.items.append(it)
+        rep.counts[new_rule] = rep.counts.get(new_rule, 0) + 1
+        n += 1
+    return n
+
+
 def guard_rules(namespace, extra=()):
     """Wrap every rule function of a rules module (names r<digits>_..., plus `extra`) so that an AnalysisError raised inside one
     rule is *deferred* on the report it was given and the remaining rules still run: a violation found by another rule is then
